@@ -1,4 +1,4 @@
-import DimodModel.Vars
+import DimodModel.VarsMore
 
 /-! Labels OUTSIDE the shared `Label` type: numbers with a non-integral value (`1.5`, `np.float32(0.5)`,
     `Fraction(3, 2)`) and tuples containing them.  `cyVariables.count` sends such an object through
@@ -94,3 +94,31 @@ def VState.flagsF (ops : List OpF) : List Bool :=
 
 /-- the list specification run on the encoded history -/
 def LSpec.runF (ops : List OpF) : List Label := ops.foldl (fun l op => (LSpec.step l op.enc).1) []
+
+/-! ### the extended alphabet (`_extend`, copy, pickle round trip, slicing) over `LabelF` -/
+
+inductive OpF2 where
+  | base (op : OpF)
+  | extend (vs : List (Option LabelF)) (permissive : Bool)
+  | copy
+  | pickle
+  | slice (sl : SSM.PySlice)
+
+namespace OpF2
+
+def enc : OpF2 → VState.Op2
+  | .base op => .base op.enc
+  | .extend vs p => .extend (vs.map (Option.map LabelF.enc)) p
+  | .copy => .copy
+  | .pickle => .pickle
+  | .slice sl => .slice sl
+
+def WF : OpF2 → Prop
+  | .base op => op.WF
+  | _ => True
+
+end OpF2
+
+def VState.runF2 (ops : List OpF2) : VState := ops.foldl (fun s op => (s.step2 op.enc).1) VState.empty
+
+def LSpec.runF2 (ops : List OpF2) : List Label := ops.foldl (fun l op => (LSpec.step2 l op.enc).1) []
